@@ -611,3 +611,172 @@ static Reg r_isofile("isofile", [](std::vector<std::string> const& a) -> std::st
         return out;
     });
 });
+
+// ------------------------------------------------------------------------------------------------------
+//  isolog <history>
+//  Where does each document's output go?  c<d> create document d; r<d>s  d.setOutputStreams(&oss_d, &oss_d)
+//  (deprecated but supported); r<d>l  d.setLogger(private logger writing to oss_d); e<d>w  QPDF::warn on d;
+//  e<d>o  a warning raised through an object handle of d; e<d>i  d.getLogger()->info(); e<d>e  d.getLogger()->error();
+//  x<d> destroy d.  std::cerr / std::cout (the sinks of QPDFLogger::defaultLogger()) are captured.  Every emission
+//  carries a unique token; the step's result lists the sinks in which the token was found (cerr, cout, o<k>).
+#include <qpdf/QPDFLogger.hh>
+#include <qpdf/QPDFExc.hh>
+#include <iostream>
+#include <set>
+namespace {
+#pragma GCC diagnostic push
+#pragma GCC diagnostic ignored "-Wdeprecated-declarations"
+std::string run_isolog(std::string const& hist) {
+    std::ostringstream cap_err, cap_out;
+    auto* old_err = std::cerr.rdbuf(cap_err.rdbuf());
+    auto* old_out = std::cout.rdbuf(cap_out.rdbuf());
+    std::map<int, std::unique_ptr<QPDF>> docs;
+    std::map<int, std::unique_ptr<std::ostringstream>> oss;
+    std::string out;
+    int n = 0;
+    for (auto const& op: split(hist, ';')) {
+        if (op.empty()) continue;
+        char k = op[0];
+        size_t pos = 1;
+        while (pos < op.size() && isdigit(static_cast<unsigned char>(op[pos]))) ++pos;
+        int d = std::stoi(op.substr(1, pos - 1));
+        char sub = pos < op.size() ? op[pos] : ' ';
+        std::string res = "ok";
+        try {
+            QPDF* q = docs.count(d) ? docs[d].get() : nullptr;
+            if (k == 'c') { docs[d] = std::make_unique<QPDF>(); docs[d]->emptyPDF(); }
+            else if (!q) res = "skip";
+            else if (k == 'x') docs.erase(d);
+            else if (k == 'r') {
+                if (!oss.count(d)) oss[d] = std::make_unique<std::ostringstream>();
+                if (sub == 's') q->setOutputStreams(oss[d].get(), oss[d].get());
+                else { auto l = QPDFLogger::create(); l->setOutputStreams(oss[d].get(), oss[d].get()); q->setLogger(l); }
+            } else if (k == 'e') {
+                std::string tok = "TOK" + std::to_string(++n) + "d" + std::to_string(d) + "!";
+                if (sub == 'w') q->warn(QPDFExc(qpdf_e_damaged_pdf, "doc" + std::to_string(d), "", 0, tok));
+                else if (sub == 'o') {
+                    auto a = QPDFObjectHandle::parse(q, "[ 1 2 ]");
+                    a.setObjectDescription(q, tok);
+                    (void)a.getArrayItem(99);
+                }
+                else if (sub == 'i') q->getLogger()->info(tok + "\n");
+                else q->getLogger()->error(tok + "\n");
+                std::cerr.flush(); std::cout.flush();
+                std::string where;
+                if (cap_err.str().find(tok) != std::string::npos) where += "cerr,";
+                if (cap_out.str().find(tok) != std::string::npos) where += "cout,";
+                for (auto& [kk, o]: oss) if (o->str().find(tok) != std::string::npos) where += "o" + std::to_string(kk) + ",";
+                res = where.empty() ? "nowhere" : where.substr(0, where.size() - 1);
+            } else res = "?op";
+        } catch (std::logic_error const&) { res = "!L"; }
+        catch (std::exception const&) { res = "!R"; }
+        out += (out.empty() ? "" : "#") + op + "=" + res;
+    }
+    docs.clear();
+    std::cerr.rdbuf(old_err);
+    std::cout.rdbuf(old_out);
+    return out;
+}
+#pragma GCC diagnostic pop
+
+// deep, number-free dump of an object: indirect references are expanded in place (once per path)
+std::string deep_dump(QPDFObjectHandle oh, int depth, std::set<QPDFObjGen>& path) {
+    if (depth > 12) return "...";
+    bool ind = oh.isIndirect();
+    QPDFObjGen og;
+    if (ind) { og = oh.getObjGen(); if (path.count(og)) return "<loop>"; path.insert(og); }
+    std::string r = ind ? "@" : "";
+    if (oh.isStream()) {
+        r += "stream" + deep_dump(oh.getDict().shallowCopy(), depth + 1, path) + ":";
+        r += safe([&] { auto b = oh.getStreamData(qpdf_dl_none); return hex(std::string(reinterpret_cast<char const*>(b->getBuffer()), b->getSize())); });
+    } else if (oh.isArray()) {
+        r += "[";
+        for (auto const& it: oh.getArrayAsVector()) r += deep_dump(it, depth + 1, path) + " ";
+        r += "]";
+    } else if (oh.isDictionary()) {
+        r += "<<";
+        for (auto const& key: oh.getKeys()) {
+            if (key == "/Parent") { r += key + " (parent) "; continue; }
+            r += key + " " + deep_dump(oh.getKey(key), depth + 1, path) + " ";
+        }
+        r += ">>";
+    } else r += safe([&] { return oh.unparseResolved(); });
+    if (ind) path.erase(og);
+    return r;
+}
+std::string deep_of(QPDFObjectHandle oh) { std::set<QPDFObjGen> p; return deep_dump(oh, 0, p); }
+
+// what the destination gets from one source: copyForeignObject of the given ids + addPage of the first page
+std::string copy_from(QPDF& dst, QPDF& src, std::vector<int> const& ids, bool add_page) {
+    std::string r;
+    for (int id: ids) {
+        if (id < 1 || id > static_cast<int>(src.getObjectCount())) continue;
+        auto fo = src.getObject(id, 0);
+        if (!fo.isIndirect() || fo.isPagesObject() || fo.isNull()) { r += std::to_string(id) + "=skip;"; continue; }
+        r += std::to_string(id) + "=" + safe([&] { return deep_of(dst.copyForeignObject(fo)); }) + ";";
+    }
+    if (add_page) {
+        r += "page=" + safe([&] {
+            auto pages = QPDFPageDocumentHelper(src).getAllPages();
+            if (pages.empty()) return std::string("none");
+            QPDFPageDocumentHelper(dst).addPage(pages.at(0), false);
+            auto dp = QPDFPageDocumentHelper(dst).getAllPages();
+            return deep_of(dp.back().getObjectHandle());
+        }) + ";";
+    }
+    return r;
+}
+
+} // namespace
+
+static Reg r_isolog("isolog", [](std::vector<std::string> const& a) -> std::string {
+    std::string hist = a.empty() ? "" : a[0];
+    return in_child([hist] { return run_isolog(hist); });
+});
+
+//  isocopy <seed> <rounds> <file0,file1,...> [heap]
+//  One long-lived destination copies the SAME object ids (and the first page) from a sequence of sources; each
+//  source is created, used and destroyed inside the loop body, at the SAME ADDRESS (placement new into one buffer;
+//  with "heap": make_unique in the loop).  Every round's copies must equal (deep, number-free dump) the copies a
+//  fresh destination makes when that source is the only one.  Output: round<k>:<file index>:same|DIFF ...
+static Reg r_isocopy("isocopy", [](std::vector<std::string> const& a) -> std::string {
+    unsigned long long seed = std::stoull(a.at(0));
+    int rounds = std::stoi(a.at(1));
+    auto files = split(a.at(2), ',');
+    bool heap = a.size() > 3 && a[3] == "heap";
+    return in_child([=] {
+        std::vector<std::string> data;
+        for (auto const& f: files) data.push_back(slurp(f));
+        Rng r{seed}; r.next();
+        std::vector<int> ids;
+        for (int i = 0; i < 4; ++i) ids.push_back(1 + static_cast<int>(r.pick(9)));
+        QPDF dst; dst.setSuppressWarnings(true); dst.processMemoryFile("dst", data.at(0).data(), data.at(0).size());
+        alignas(QPDF) static unsigned char buf[sizeof(QPDF)];
+        std::string out;
+        std::string addr;
+        for (int k = 0; k < rounds; ++k) {
+            size_t fi = (k == 0) ? 1 % data.size() : r.pick(static_cast<unsigned>(data.size()));
+            bool add_page = r.pick(2) == 0;
+            std::string got, want;
+            {
+                std::unique_ptr<QPDF> hp;
+                QPDF* src;
+                if (heap) { hp = std::make_unique<QPDF>(); src = hp.get(); } else src = new (buf) QPDF();
+                src->setSuppressWarnings(true);
+                src->processMemoryFile("src", data[fi].data(), data[fi].size());
+                char ab[32]; snprintf(ab, sizeof ab, "%p", static_cast<void*>(src));
+                if (addr.empty()) addr = ab; else if (addr != ab) addr = "moved";
+                got = copy_from(dst, *src, ids, add_page);
+                if (!heap) src->~QPDF();
+            }
+            {
+                QPDF d2; d2.setSuppressWarnings(true); d2.processMemoryFile("dst", data.at(0).data(), data.at(0).size());
+                QPDF s2; s2.setSuppressWarnings(true); s2.processMemoryFile("src", data[fi].data(), data[fi].size());
+                // bring the solo destination to the same number of pages so that "the last page" means the same thing
+                want = copy_from(d2, s2, ids, add_page);
+            }
+            out += " round" + std::to_string(k) + ":" + std::to_string(fi) + ":" + (got == want ? "same" : "DIFF[" + hx64(fnv(got)) + "!=" + hx64(fnv(want)) + "]");
+        }
+        return "addr=" + std::string(addr == "moved" ? "moved" : "reused") + out;
+    });
+});
